@@ -21,9 +21,9 @@ PROPS: dict[str, dict] = {
     "C18": {"modules": ["vf.h_gateway"], "harnesses": ["gateway-reports"]},
     "C19": {"modules": ["vf.h_builder"], "harnesses": ["job-builder"]},
     "C12": {"modules": ["vf.h_serial"], "harnesses": ["serial-roundtrip", "serial-symnames"]},
-    "C10": {"modules": ["vf.h_lower"], "harnesses": ["lower-args", "lower-yields", "lower-builder-run"]},
+    "C10": {"modules": ["vf.h_lower"], "harnesses": ["lower-args", "lower-yields", "lower-builder-run", "serde-registry"]},
     "C16": {"modules": ["vf.h_presched"], "harnesses": ["presched"]},
-    "C01": {"modules": ["vf.h_ctrl", "vf.h_stack"], "harnesses": ["ctrl-C01", "act-step", "fullstack-C01"]},
+    "C01": {"modules": ["vf.h_ctrl", "vf.h_stack", "vf.h_lower"], "harnesses": ["ctrl-C01", "act-step", "serde-registry", "fullstack-C01"]},
     "C02": {"modules": ["vf.h_ctrl", "vf.h_worker", "vf.h_stack"], "harnesses": ["ctrl-C02", "worker-wakeup", "act-step", "notify-step", "fullstack-C02"]},
     "C03": {"modules": ["vf.h_ctrl", "vf.h_stack"], "harnesses": ["ctrl-C03", "plan-step", "act-step", "notify-step", "migrate-step", "fullstack-C03"]},
     "C04": {"modules": ["vf.h_ctrl"], "harnesses": ["ctrl-C04", "plan-step", "build-assignment-step", "fetch-step"]},
